@@ -181,6 +181,41 @@ def L6_long():
         yield ("module", seq)
 
 
+# identifier spellings: a program means the same under any consistent renaming of an identifier to another non-reserved identifier.
+# Names = every identifier-shaped word of grammar.pest (keywords, literal prefixes and suffixes) extended by a letter, an underscore
+# or a digit, so that they are ordinary identifiers which merely START like a word of the grammar.
+IDENT_ROLES = {
+    "variable": ("{N} = 1\nprint {N}\n{N} = {N} + 1\nif {N} == 2 {{\n\t{N} = 5\n}}\n{N} += 2\nprint {N}\n", ["1", "7"]),
+    "function": ("{N} = fn() -> int {{\n\tprint \"in\"\n\treturn 3\n}}\n{N}()\nprint {N}() + 1\nwhile true {{\n\t{N}()\n\tbreak\n}}\n", ["in", "in", "4", "in"]),
+    "parameter": ("g = fn({N}: int) -> int {{\n\treturn {N} * 2\n}}\nprint g(4)\n", ["8"]),
+    "loop-counter": ("from 0 to 2, {N} {{\n\tprint {N}\n}}\n", ["0", "1"]),
+    "field-and-method": ("class K {{\n\t{N}: int\n\tconstructor(self, v: int) {{\n\t\tself.{N} = v\n\t}}\n\tfn {N}m(self) -> int {{\n\t\treturn self.{N}\n\t}}\n}}\n"
+                         "k = K(3)\nprint k.{N}\nprint k.{N}m()\n", ["3", "3"]),
+    "optional": ("{N}: int? = nil\nprint {N} == nil\n{N} = 4\nprint ({N}) or 0\n", ["true", "4"]),
+    "const": ("const {N} = 9\nprint {N}\n", ["9"]),
+    "list": ("{N}: [int...] = [1]\n{N}.push(2)\nprint {N}[1]\n{N}[0] = 5\nprint {N}\n", ["2", "[5, 2]"]),
+    "after-expression-line": ("a = 1\nprint a\n{N} = 5\nprint {N} + a\nb = a\n{N} = 6\nprint {N}\n", ["1", "6", "6"]),
+    "unpack": ("const [{N}, zz9] = [1, 2]\nprint {N} + zz9\n", ["3"]),
+    "closure-capture": ("{N} = 1\ninc = fn() {{\n\tmodify {N} = {N} + 1\n}}\ninc()\nprint {N}\n", ["2"]),
+    "call-argument-and-return": ("h = fn(q: int) -> int {{\n\t{N} = q + 1\n\treturn {N}\n}}\n{N} = 2\nprint h({N})\n", ["3"]),
+}
+
+
+def ident_names():
+    import os
+    import re
+    from ..core import build as _b
+    with open(os.path.join(_b.REPO, "compiler", "src", "grammar.pest")) as f:
+        words = sorted(set(re.findall(r'"([A-Za-z_][A-Za-z_0-9]*) ?"', f.read())))
+    names = ["zq"]
+    for w in words:
+        for v in (w + "x", w + "_", w + "1", w + "1x", w.capitalize() + "x" if w.capitalize() != w else w + "X"):
+            if re.fullmatch(r"B[0-9]+|_+", v) or v in names:
+                continue
+            names.append(v)
+    return names
+
+
 class C01(Check):
     id = "C01"
     level = "model_checking"
@@ -190,7 +225,9 @@ class C01(Check):
             "(L1), spines of length <= 5 (L2), ordered pairs of depth-<=1 items in a function / module / loop body (L3), and in the "
             "thorough tier depth 4, double deviations and long sequences; each skeleton is emitted inside fn(p:int)->int called with "
             "p = 0, 1, 2 (and at module level / through one level of recursion), framed by probes that print a site id and all live "
-            "counters.  State = the reference interpreter's configuration; every program is one model trace replayed on the implementation.")
+            "counters.  Identifier spellings: 12 roles of an identifier (variable, function incl. call statements, parameter, loop counter, field / method, "
+            "optional, const, list, first token after an expression line, unpack target, captured variable, argument / return) x every identifier-shaped word "
+            "of grammar.pest extended by a letter, underscore or digit; the program must behave as with a neutral name.  State = the reference interpreter's configuration; every program is one model trace replayed on the implementation.")
     assumptions = ["variable names are distinct per function (shadowing across functions belongs to C07)",
                    "any non-zero exit counts as the prescribed failure (its delivery is C17's business)",
                    "reference interpreter mcheck/lang/refint.py is the semantics (validated against the unchanged tree by this very check)"]
@@ -201,18 +238,41 @@ class C01(Check):
     def layers(self, tier):
         if tier == "quick":
             return [("L0-depth<=2-default", L0(2)), ("L0b-depth<=2-module+recursion", L0b()),
+                    ("Li-identifier-spellings", [("ident", r, n) for n in ident_names() for r in IDENT_ROLES]),
                     ("Lp-depth<=1-single-deviation-minimal-parentheses", L1(1, ("fn~min",))),
                     ("L2-spines<=4", L2(4)), ("L3q-pairs-of-compounds", L3q()),
                     ("L1-depth<=2-single-deviation(no call/store/defcall leaves)", L1(2, skip=("call", "store", "defcall"), core_conds_beyond_depth1=True))]
         return [("L0-depth<=3-default", L0(3)), ("L0b-depth<=2-module+recursion", L0b()),
+                ("Li-identifier-spellings", [("ident", r, n) for n in ident_names() for r in IDENT_ROLES]),
                 ("L1-depth<=2-single-deviation", L1(2, ("fn", "module", "rec", "fn~min"))), ("L3-pairs", L3()),
                 ("L2-spines<=5", L2(5)), ("L6-long-sequences", L6_long()), ("L5a-depth<=2-double-deviation", L5_double(2)),
                 ("L5b-depth<=3-single-deviation", L1(3)), ("L4-depth<=4-default", L0(4))]
 
     def describe(self, case):
+        if case[0] == "ident":
+            return {"identifier": case[2], "role": case[1]}
         return {"variant": case[0], "shape": repr(case[1])}
 
+    def run_ident(self, case):
+        _, role, nm = case
+        tpl, exp = IDENT_ROLES[role]
+        src = tpl.format(N=nm)
+        res = driver.run_ms(src)
+        lines = res.lines()
+        viol = []
+        if res.exit != 0 or lines != exp:
+            import re
+            stem = re.sub(r"(x|_|1|1x|X)$", "", nm).lower()
+            rejected = res.exit != 0 and "Did not compile" in res.err
+            viol.append({"sig": {"kind": "identifier-spelling", "stem": stem, "role": role, "how": "rejected" if rejected else "misbehaves"},
+                         "what": f"`{nm}` as {role}: the program prints {exp} with any other name; here " +
+                                 (f"the compiler rejects it: {res.out[-160:]!r}" if rejected else f"it prints {lines} (exit {res.exit}) {res.err[-120:]}"),
+                         "detail": {"files": {"x.ms": src}, "res": res.brief(), "expected_lines": exp}})
+        return {"outcome": "ident-ok" + ("-DIFF" if viol else ""), "viol": viol, "nontrivial": True, "tags": ["ident", f"role-{role}"]}
+
     def run_case(self, case):
+        if case[0] == "ident":
+            return self.run_ident(case)
         variant, shape = case
         ast = cfgen.function_program(shape, variant)
         kind, what, detail, info = evaluate(ast, minparen=variant.endswith("~min"))
@@ -232,7 +292,7 @@ class C01(Check):
     def finish(self, stats, tier):
         errs = []
         for t in ["store", "defcall", "break", "continue", "return", "fault-div", "fault-assert" if tier == "thorough" else "fault-div", "elif",
-                  "while", "from", "fn~min", "collide@nested", "collide@top", "anon@nested", "step", "step-expr", "step-call", "bounds-expr", "through", "module", "rec"]:
+                  "while", "from", "fn~min", "ident", "collide@nested", "collide@top", "anon@nested", "step", "step-expr", "step-call", "bounds-expr", "through", "module", "rec"]:
             if not stats["tags"].get(t):
                 errs.append(f"vacuity: construct {t} never explored")
         ok = stats["evaluations"] - stats["outcomes"].get("skipped-step-limit", 0)
